@@ -59,6 +59,8 @@ CONTENTS = {
     "attrpath-deep4": "{\n  s.n.v.m.a = true;\n  s.n.v.m.b = false;\n  s.n.w = 1;\n  k = 1;\n}",
     # a family whose members are not written next to each other
     "attrpath-interleaved": "{\n  s.n.a = 1;\n  s.h.a = 2;\n  s.n.p = 3;\n  k = 1;\n}",
+    # a commented-out binding with a remark on the same row (two comments on one row)
+    "two-comments-one-row": "{\n  a = 1;\n  /* b = 2; */ # why\n  c = 3;\n}",
     # one root defined explicitly and in attrpath form (legal Nix; merged by the evaluator)
     "set-and-attrpath": "{\n  a = {\n    x = 1;\n  };\n  a.b = 2;\n  k = 1;\n}",
     "set-and-attrpath-deep": "{\n  s = {\n    k = true;\n  };\n  s.t.u = 4;\n  z = 5;\n}",
@@ -79,7 +81,7 @@ PATHS = ["a.enable", "b.enable", "c.enable", "enable", "@lib.v", "@w.v", "a", "b
          "@a", "@@a", "@m.x",
          # later members of deep attrpath families, fresh leaves in them, and the paths a mis-merged tree would answer to
          "m.n.y", "m.y", "m.n.z", "s.n.v.m.b", "s.n.v.m.c", "s.n.v.b", "s.n.w", "@@@u", "s.n.p", "s.h.a",
-         "a.b", "a.x", "s.t.u", "s.k", "s.t", "@lib", "@n", "@@@n", "m.x.y", "m.x.z", "m.k", "users.users.alice.uid", "users.users.bob.uid", "users.users.carol.uid", "users.alice", "@z.r", "@z.s", "@z.q", "@z", "m.n.x.y", "m.n.x.z", "m.n.k", "m.n.x"]
+         "a.b", "a.x", "s.t.u", "s.k", "s.t", "@lib", "@n", "@@@n", "m.x.y", "m.x.z", "m.k", "users.users.alice.uid", "users.users.bob.uid", "users.users.carol.uid", "users.alice", "@z.r", "@z.s", "@z.q", "@z", "m.n.x.y", "m.n.x.z", "m.n.k", "m.n.x", "c"]
 VALUES = ["2", '"s"', "[ 1 2 ]", "{ k = 1; }", "v", "{", "1 2", ""]
 
 
@@ -92,7 +94,7 @@ def documents(tier):
                 continue
             if c.startswith("twins") and w not in ("bare", "let", "let-twins", "lambda-call", "rec"):
                 continue
-            if (c.startswith("set-and-attrpath") or c in ("nested-attrpath", "attrpath-spaced", "same-name-family", "deep-nested-attrpath")) and w not in ("bare", "lambda", "let"):
+            if (c.startswith("set-and-attrpath") or c in ("nested-attrpath", "attrpath-spaced", "same-name-family", "deep-nested-attrpath", "two-comments-one-row")) and w not in ("bare", "lambda", "let"):
                 continue
             if w in ("let-inherit", "let3-alike", "let-family", "lambda-colon-line") and c not in ("flat", "attrpath", "comments", "inline"):
                 continue
@@ -321,6 +323,71 @@ def alignments(a: bytes, b: bytes):
     return out
 
 
+def _lv(text):
+    """(kind, text) of every leaf incl. comments; comment text without surrounding blanks and with its inner lines de-indented."""
+    out = []
+    for t, x, s_, e_ in G.leaves(G.parse_cst_lenient(text)[0]):
+        if t == "comment":
+            x = "\n".join(ln.strip() for ln in x.strip().split("\n"))
+        out.append((t, x, s_, e_))
+    return out
+
+
+def token_level_c04(text, out, op, path, value):
+    """First clause of C04, for any layout: every code token and every comment outside the addressed binding is still there, once,
+    in the same order.  Comments that count as attached to a removed binding: the own-line comments directly above it (back to
+    the previous code token) and a comment on its own last line.  Only unscoped `rm` / `set` of an existing path."""
+    depth, names = parse_path(path)
+    if depth:
+        return None
+    ext = RD.find_binding_extent(text, names)
+    if ext is None:
+        return None
+    (bs, be), (vs, ve) = ext
+    b = text.encode("utf-8")
+    lin = _lv(text)
+    lout = _lv(out)
+    if G.parse_cst(text).has_error or G.parse_cst(out).has_error:
+        return None
+    if op == "set":
+        keep = [(t, x) for t, x, s_, e_ in lin if not (vs <= s_ < ve)]
+        root = G.parse_cst(value)
+        vleaves = [(t, x) for t, x, _s, _e in _lv(value)]
+        # the value's own tokens may be re-laid out, so: input minus old value == output minus a contiguous run equal to the new value
+        got = [(t, x) for t, x, _s, _e in lout]
+        n, m = len(keep), len(vleaves)
+        if len(got) != n + m:
+            return "set-changed-tokens-or-comments-outside-the-addressed-binding"
+        k = next((i for i in range(len(got)) if i >= len(keep) or got[i] != keep[i]), len(got))
+        if got[:k] + got[k + m:] != keep:
+            return "set-changed-tokens-or-comments-outside-the-addressed-binding"
+        return None
+    # rm
+    code = [l for l in lin if l[0] != "comment"]
+    prev_end = max([l[3] for l in code if l[3] <= bs], default=0)
+    line_end = b.find(b"\n", be)
+    line_end = len(b) if line_end < 0 else line_end
+    nxt = min([l[2] for l in code if l[2] >= be], default=len(b))
+    def attached(l):
+        t, x, s_, e_ = l
+        if t != "comment":
+            return False
+        if prev_end <= s_ < bs:
+            # above the binding, not on the line of the previous token
+            return b"\n" in b[prev_end:s_]
+        return be <= s_ < min(line_end, nxt)
+    keep = [(t, x) for l in lin for t, x, s_, e_ in [l] if not (bs <= s_ < be) and not attached(l)]
+    got = [(t, x) for t, x, _s, _e in lout]
+    # a parent left empty may be pruned: C05's business; only compare when nothing but the binding went
+    if len(got) > len(keep):
+        return "rm-left-tokens-of-the-removed-binding"
+    if got != keep:
+        if [g for g in got if g[0] != "comment"] == [k_ for k_ in keep if k_[0] != "comment"]:
+            return "rm-changed-comments-outside-the-addressed-binding"
+        return None
+    return None
+
+
 def allowed_region(text, depth, names, op):
     """Byte range of the input that the edit may change (C04): the addressed binding with the trivia
     between its neighbours; for a pure insertion the range is empty but may sit anywhere."""
@@ -467,6 +534,10 @@ def eval_case(prop, doc_id, text, op, path, value):
     if prop in ("C04", "C09"):
         if out is None or refuse is not None:
             return None
+        if prop == "C04":
+            sym = token_level_c04(text, out, op, path, value)
+            if sym:
+                return sym
         if before != text:
             return None  # the byte-level clause speaks about input in canonical layout
         depth, names = parse_path(path)
